@@ -712,7 +712,7 @@ func TestC10Random(t *testing.T) {
 
 // typed universe for C09
 var c09Numbers = []string{"1e21", "1e-7", "5e-324", "0.23333333333333334", "1.7976931348623157e308", "-1e308", "6.02214076e23", "1e20", "123456789012345680000", "1.2345678901234568e-10", "0", "-0", "1", "-1", "1.5", "-1.5", "2.5", "1e15", "-7", "1e19", "-1e19", "9223372036854775808", "1e21", "1e300", "9007199254740993", "0.1", "1e-7", "123456789.125", "-2.5"}
-var c09Strings = []string{`"null"`, `"true"`, `"[]"`, `"9223372036854775807"`, `"9223372036854775808"`, `"9999999999999999999"`, `"18446744073709551616"`, `"0.23333333333333334"`, `"\ufffdabc"`, `"\u007f"`, `"𝄞"`, `"a\u0301"`, `"ǆ"`, `"a𝄞"`, `"𝄞𝄞𝄞"`, `""`, `"a"`, `"b"`, `"ab"`, `"é"`, `"𝒳y"`, `"10"`, `"1e2"`, `"-0"`, `" 1"`, `"inf"`, `"nan"`, `"Infinity"`, `"0x1p4"`, `"1_0"`, `"é"`, `"aé𝒳"`, `"1.0"`, `"-1.5e-3"`, `"1e999"`, `"+1"`, `".5"`}
+var c09Strings = []string{`"0x1F"`, `"0o17"`, `"0b101"`, `"0X1f"`, `"-0x10"`, `"1_000"`, `"0x"`, `"017"`, `"null"`, `"true"`, `"[]"`, `"9223372036854775807"`, `"9223372036854775808"`, `"9999999999999999999"`, `"18446744073709551616"`, `"0.23333333333333334"`, `"\ufffdabc"`, `"\u007f"`, `"𝄞"`, `"a\u0301"`, `"ǆ"`, `"a𝄞"`, `"𝄞𝄞𝄞"`, `""`, `"a"`, `"b"`, `"ab"`, `"é"`, `"𝒳y"`, `"10"`, `"1e2"`, `"-0"`, `" 1"`, `"inf"`, `"nan"`, `"Infinity"`, `"0x1p4"`, `"1_0"`, `"é"`, `"aé𝒳"`, `"1.0"`, `"-1.5e-3"`, `"1e999"`, `"+1"`, `".5"`}
 var c09NumArrays = []string{"[]", "[1]", "[3,1,2]", "[1,1,1]", "[2,-1,2,0.5]", "[1e15,-1e15,1]", "[0,-0]"}
 var c09StrArrays = []string{"[]", `["a"]`, `["b","a","c"]`, `["a","a"]`, `["é","e","z","𝒳","Z"]`, `["","a",""]`, `["ab","a","abc"]`}
 var c09ObjArrays = []string{
